@@ -11,6 +11,7 @@ from vf import core
 
 META = {
     'property_id': 'C17',
+    'confirm_by_replay': True,   # bin/check re-executes the stimulus of every violation before it is reported
     'level': 'model_checking',
     'technique': 'decision-table transcription in TLA+ of the stored form of an encrypted value (Encryption.tla: key size '
                  'byte | AES-KWP wrapped data key | nonce | AES-GCM ciphertext | tag) and of LocalEncryptionHandler.Read '
